@@ -1,3 +1,5 @@
+#include <iostream>
+#include <streambuf>
 #include <sys/syscall.h>
 // SimOS kernel: processes, scheduler, file layer, pipes, signals, and the
 // --wrap entry points the real ninja objects are linked against.
@@ -695,6 +697,26 @@ void ArmWatchdog(int seconds) {
   setitimer(ITIMER_VIRTUAL, &it, nullptr);
 }
 
+// std::cout / std::cerr are bound to the C stdout/stderr OBJECTS when the library starts,
+// not to the variables the simulation re-points at its cookie streams: ninja code that uses
+// iostreams (`-t missingdeps`) would write past the simulated process into the worker's own
+// stdout.  These buffers forward to whatever `stdout` / `stderr` currently are.
+namespace {
+struct ForwardBuf : std::streambuf {
+  bool err;
+  explicit ForwardBuf(bool e) : err(e) {}
+  int_type overflow(int_type c) override {
+    if (c != traits_type::eof()) { char ch = (char)c; fwrite(&ch, 1, 1, err ? stderr : stdout); }
+    return c;
+  }
+  std::streamsize xsputn(const char* s, std::streamsize n) override { return (std::streamsize)fwrite(s, 1, (size_t)n, err ? stderr : stdout); }
+  int sync() override { fflush(err ? stderr : stdout); return 0; }
+};
+// (never destroyed: the library flushes std::cout once more when the process exits)
+ForwardBuf* g_cout_buf = new ForwardBuf(false);
+ForwardBuf* g_cerr_buf = new ForwardBuf(true);
+}  // namespace
+
 void GlobalInit() {
   static bool done = false;
   if (done) return;
@@ -704,6 +726,8 @@ void GlobalInit() {
   setvbuf(g_real_stdout, nullptr, _IOLBF, 1 << 16);
   g_real_stdout_var = stdout;
   g_real_stderr_var = stderr;
+  std::cout.rdbuf(g_cout_buf);
+  std::cerr.rdbuf(g_cerr_buf);
   g_stack = static_cast<char*>(mmap(nullptr, kStackSize + 4096, PROT_READ | PROT_WRITE,
                                     MAP_PRIVATE | MAP_ANONYMOUS | MAP_NORESERVE, -1, 0));
   mprotect(g_stack, 4096, PROT_NONE);
